@@ -79,6 +79,10 @@ def chr_eq(c, lit):
 def struct_eq(I, a, b, st):
     """structural equality (what #[derive(PartialEq)] computes) as a guard"""
     a, b = deref_all(I, a, st), deref_all(I, b, st)
+    if isinstance(a, _interp.VariantOrCtor):
+        a = Adt(a.enum, a.variant, ())
+    if isinstance(b, _interp.VariantOrCtor):
+        b = Adt(b.enum, b.variant, ())
     if isinstance(a, Union) or isinstance(b, Union):
         acc = False
         for ga, xa in alts_of(a):
@@ -181,6 +185,13 @@ def parse_uint(I, items, bits, radix):
         acc = z3.BitVecVal(0, w)
         for c in ds:
             acc = acc * radix + (z3.BitVecVal(digit_val(c, w), w) if isinstance(c, int) else digit_val(c, w))
+        if len(ds) > 4:
+            # name the value: path feasibility checks then treat it as unconstrained (an over-approximation that never
+            # prunes a feasible path); the defining equation is part of every final query (I.definitions)
+            I.n_defs += 1
+            var = z3.BitVec("num%d_%dd" % (I.n_defs, len(ds)), w)
+            I.definitions.append(var == acc)
+            acc = var
         fits = z3.ULT(acc, z3.BitVecVal(1 << bits, w)) if w > bits else True
         outs.append((b_and(gsign, all_ok, fits), res_ok(z3.Extract(bits - 1, 0, acc))))
         outs.append((b_and(gsign, all_ok, b_not(fits)), res_err(Adt("ParseIntError", None, ["PosOverflow"]))))
@@ -1217,9 +1228,20 @@ def register(I):
         msg = deref_all(I, args[0], st)
         raise PanicExc("".join(map(chr, msg.chars())) if isinstance(msg, StrSlice) else "panic")
 
-    @reg("panicking::panic_fmt", "::panic_fmt", "panicking::unreachable_display", "panicking::panic_display")
+    @reg("panicking::panic_fmt", "::panic_fmt", "panic_fmt", "panicking::unreachable_display", "unreachable_display",
+         "panicking::panic_display", "panic_display", "panicking::panic_explicit", "panic_explicit", "panic_nounwind",
+         "panicking::assert_failed", "assert_failed", "unwrap_failed", "expect_failed", "panic_str", "begin_panic")
     def panic_fmt(I, st, args, info):
-        raise PanicExc("panic_fmt")
+        msg = info.path.last()
+        try:
+            from .fmtmodel import ArgsV
+            if args and isinstance(args[0], ArgsV):
+                r = I.render_args(I, args[0], st)
+                if isinstance(r, StringV):
+                    msg = "".join(chr(c) if isinstance(c, int) else "?" for c in r.items)
+        except Unsupported:
+            pass
+        raise PanicExc(msg)
 
     @reg("::must_use", "hint::must_use", "must_use")
     def must_use(I, st, args, info):
